@@ -260,9 +260,9 @@ fn main() {
         let mut jobs: Vec<(u64, u64, usize)> = vec![];
         for len in 1..=small_max {
             for off in [1u64, 1000] {
-                // thorough: 3 deviations up to length 32 (<= 4 concurrent requests), 2 above
+                // thorough: 3 deviations up to length 40 (<= 5 concurrent requests), 2 above
                 // (a 3-deviation sweep of 8 concurrent requests is ~3.5e6 executions per range)
-                let bound = if len > 32 { small_bound.min(2) } else { small_bound };
+                let bound = if len > 40 { small_bound.min(2) } else { small_bound };
                 jobs.push((off, off + len - 1, bound));
             }
         }
@@ -318,7 +318,7 @@ fn main() {
         &ctx,
         rep,
         Spec {
-            rule: "E3 envdfs on the real HeaderSession: ranges of length 1..24 at first heights {1,1000} with every choice sequence of <= 2 non-default choices (quick) / lengths 1..32 with <= 3 and 33..80 with <= 2 non-default choices (thorough), and lengths {63,64,65,128,129,511,512,513,2000} at first height 1 with <= 1 non-default choice; a choice point = (which outstanding request, oldest first) x (full | prefix 1 | prefix n-1 | prefix ceil(n/2) | empty prefix | HeaderNotFound | InvalidResponse), choice 0 = oldest+full; each execution (= evaluation, distinct by its choice sequence; all count as non-trivial) runs to completion; states = distinct observation traces per range; transitions = environment answers",
+            rule: "E3 envdfs on the real HeaderSession: ranges of length 1..24 at first heights {1,1000} with every choice sequence of <= 2 non-default choices (quick) / lengths 1..40 with <= 3 and 41..80 with <= 2 non-default choices (thorough), and lengths {63,64,65,128,129,511,512,513,2000} at first height 1 with <= 1 non-default choice; a choice point = (which outstanding request, oldest first) x (full | prefix 1 | prefix n-1 | prefix ceil(n/2) | empty prefix | HeaderNotFound | InvalidResponse), choice 0 = oldest+full; each execution (= evaluation, distinct by its choice sequence; all count as non-trivial) runs to completion; states = distinct observation traces per range; transitions = environment answers",
             assumptions: &[
                 "VERIF_SEED is unused: header contents come from ExtendedHeaderGenerator (random keys) and the property depends on heights only",
                 "responses are prefixes of the request or header-ex errors (HeaderNotFound, InvalidResponse stand for every HeaderExError variant: the session matches on P2pError::HeaderEx(_) only)",
